@@ -25,8 +25,8 @@ def run(chk):
                'obligation that the result is 2*atan2(|u-v|, |u+v|) on normalised beams (Kahan) and (ii) a bounded comparison '
                'with an mpmath reference on a deterministic grid of near-degenerate directions')
     mod = kit.load(MOD)
-    simple_kernels(chk, mod)
-    two_theta_contract(chk, mod)
+    chk.section('simple_kernels', simple_kernels, mod)
+    chk.section('two_theta_contract', two_theta_contract, mod)
     lemmas(chk)
     tables(chk)
     accuracy_bounded(chk)
